@@ -76,11 +76,25 @@ def letter_flag_glued_to_account(v: core.Violation, sess: Any, op: Optional[dict
     return False
 
 
+def blank_line_after_list_replacement(v: core.Violation, sess: Any, op: Optional[dict]) -> bool:
+    """A whole comment-interleaving list was assigned while its placeholder sat behind the separating
+    newline, and the document now has an empty line in front of an indented line."""
+    if sess is None or not getattr(sess, 'wrapper_assigned_behind_newline', False):
+        return False
+    toks = [t for t in sess.root.token_store if t.raw_text]
+    for a, b, c in zip(toks, toks[1:], toks[2:]):
+        if isinstance(a, models.Newline) and isinstance(b, models.Newline) and (
+                isinstance(c, models.Indent) or (isinstance(c, models.BlockComment) and c.indent)):
+            return True
+    return False
+
+
 PREDICATES: dict[str, Callable[[core.Violation, Any, Optional[dict]], bool]] = {
     'number_comma_digit_hazard': number_comma_digit_hazard,
     'slash_number_currency_hazard': slash_number_currency_hazard,
     'unindented_comment_in_block': unindented_comment_in_block,
     'letter_flag_glued_to_account': letter_flag_glued_to_account,
+    'blank_line_after_list_replacement': blank_line_after_list_replacement,
 }
 
 _OPEN: Optional[list[dict]] = None
